@@ -504,3 +504,22 @@ func (s *genState) shuffleSegment(order []int) []int {
 	}
 	return order
 }
+
+// DynCases: cases in which epoch 5 elects another validator set and block 24 carries a link that skips it.
+func (g *Gen) DynCases(id, k int) []*Case {
+	var r []*Case
+	for i := 0; i < k; i++ {
+		perm := g.perm(4)
+		m := 2 + g.R.Intn(3) // 2..4 elected validators
+		d := &DynSpec{Elect: perm[:m], Source: "genesis", Signers: []string{"former", "current", "mixed"}[i%3]}
+		if g.R.Bool() {
+			d.Source = "c16"
+		}
+		// a set that equals the federation in the same order changes nothing: rotate it
+		if m == 4 && perm[0] == 0 && perm[1] == 1 && perm[2] == 2 {
+			d.Elect = []int{1, 2, 3, 0}
+		}
+		r = append(r, &Case{ID: id + i, Stream: "elected-validators", NKeys: 4, Local: Outsider, Dyn: d})
+	}
+	return r
+}
